@@ -314,7 +314,12 @@ func exerciseEntry(w *World, e iface.IPFSLogEntry, honest iface.IPFSLogEntry) {
 	_, _ = sorting.Compare(e, honest)
 	_, _ = sorting.Compare(honest, e)
 	_, _ = entry.ToHashable(e)
-	_ = e.Verify(Writers()[0].ID.Provider, w.IO)
+	// (twice: what an untrusted entry makes the provider remember must not change the second answer)
+	v1 := e.Verify(Writers()[0].ID.Provider, w.IO)
+	v2 := e.Verify(Writers()[0].ID.Provider, w.IO)
+	if (v1 == nil) != (v2 == nil) {
+		w.R.Violate("C12:verify-unstable", "verifying the same decoded entry twice gave %v, then %v", v1, v2)
+	}
 	sl := []iface.IPFSLogEntry{e, honest, e}
 	sorting.Sort(sorting.NoZeroes(sorting.LastWriteWins), sl, false)
 	_ = entry.FindHeads(entry.NewOrderedMapFromEntries(sl))
